@@ -429,7 +429,12 @@ func consulted(r *core.Rand, likely bool) []string {
 // genConnect emits one MITM CONNECT item with scripted modifier behaviours.
 func genConnect(r *core.Rand, pr Profile, tls bool) string {
 	rq, rs := genMods(r, pr)
-	return strings.TrimSpace(fmt.Sprintf("cmitm tls=%s rq=%s rs=%s %s", b01(tls), rq, rs, strings.Join(errKinds(r, rq, rs), " ")))
+	ed := ""
+	if r.Chance(1, 4) { // the client sends the first tunnel bytes in the same write as the CONNECT head (earlydata.go)
+		ed = " ed=1"
+		core.Count("earlydata:mitm-connect-tls" + b01(tls))
+	}
+	return strings.TrimSpace(fmt.Sprintf("cmitm tls=%s rq=%s rs=%s %s", b01(tls), rq, rs, strings.Join(errKinds(r, rq, rs), " "))) + ed
 }
 
 // genFailedConnect: a MITM CONNECT whose tunnel starts with a TLS handshake that fails (hsfail.go).
